@@ -258,13 +258,16 @@ var gLongName = map[string]string{
 	"-s": "--sequence", "-D": "--definition", "-I": "--identifier", "-A": "--has-attribute",
 	"-a": "--attribute", "-p": "--predicate", "--id-list": "--id-list",
 	"-r": "--restrict-to-taxon", "-i": "--ignore-taxon", "--require-rank": "--require-rank",
+	gApproxOpt: gApproxOpt,
 }
 
-// gOptKinds lists the selection options of the statement, in a fixed order.
-var gOptKinds = []string{"-l", "-L", "-c", "-C", "-s", "-D", "-I", "-A", "-a", "-p", "--id-list", "-r", "-i", "--require-rank"}
+// gOptKinds lists the selection options of the statement, in a fixed order
+// (--approx-pattern, the approximate sequence pattern, comes with its modifiers
+// --pattern-error, --allows-indels, --only-forward: see grep_approx_test.go).
+var gOptKinds = []string{"-l", "-L", "-c", "-C", "-s", "-D", "-I", "-A", "-a", "-p", "--id-list", "-r", "-i", "--require-rank", gApproxOpt}
 
 // gRepeatable: options documented as usable several times.
-var gRepeatable = map[string]bool{"-s": true, "-D": true, "-I": true, "-A": true, "-a": true, "-p": true, "-r": true, "-i": true, "--require-rank": true}
+var gRepeatable = map[string]bool{"-s": true, "-D": true, "-I": true, "-A": true, "-a": true, "-p": true, "-r": true, "-i": true, "--require-rank": true, gApproxOpt: true}
 
 func gIsTax(name string) bool { return name == "-r" || name == "-i" || name == "--require-rank" }
 
@@ -273,6 +276,7 @@ type gSelection struct {
 	Opts   []gOpt
 	IDList []string
 	Tree   *ref.Tree
+	Approx gApprox // --pattern-error, --allows-indels, --only-forward (apply to every --approx-pattern)
 }
 
 // keepOne: does record r satisfy every requested criterion?  The second value
@@ -367,6 +371,15 @@ func (s *gSelection) keepOne(r gRec) (bool, string, error) {
 			ok = !(known && okc && s.Tree.IsAncestorOrSelf(clade, node))
 		case "--require-rank":
 			ok = known && s.Tree.AtRank(node, o.Val) >= 0
+		case gApproxOpt:
+			var err error
+			ok, err = s.Approx.matches(o.Val, r.Seq)
+			if err != nil {
+				return false, "", err
+			}
+			if !ok {
+				return false, o.describe() + " " + s.Approx.describe(), nil
+			}
 		default:
 			return false, "", fmt.Errorf("harness: unknown option %q", o.Name)
 		}
